@@ -642,6 +642,11 @@ class BinHandle:
             out += chunk
             j += 1
             o = 0
+        if limit is not None and isinstance(limit, int) and 0 <= limit < len(out):
+            # readline(limit): at most `limit` bytes of the line come back (no newline then), as CPython does
+            out = out[:limit]
+            ended = True
+            garbage_tail = False
         end = pos + len(out)
         if self._size_ge(end):
             self.pos = end
